@@ -40,7 +40,7 @@ type c04Call struct {
 	rywBad   string // a read inside the transaction that missed the transaction's own write
 }
 
-var c04Kinds = []string{"inc", "inc", "inc", "insert", "cas", "claim", "claim", "delete", "transfer", "transfer", "read", "read", "count", "push"}
+var c04Kinds = []string{"inc", "inc", "inc", "insert", "cas", "claim", "claim", "delete", "transfer", "transfer", "transferRj", "abortInsert", "read", "read", "count", "push"}
 
 func genC04(t *rapid.T) bson.D {
 	na := rapid.IntRange(2, 8).Draw(t, "actors")
@@ -152,7 +152,35 @@ func c04Exec(env *hEnv, c *c04Call, sess lungo.ISession) {
 			c.matched = int64(id) + 1
 			c.modified = 1
 		}
-	case "transfer":
+	case "abortInsert":
+		// a transaction that inserts and is aborted leaves nothing behind:
+		// the same id can be inserted right afterwards (nobody else uses it)
+		id := "x" + c.cid
+		if err := sess.StartTransaction(); err != nil {
+			setErr(err)
+			return
+		}
+		_ = lungo.WithSession(ctx, sess, func(sc lungo.ISessionContext) error {
+			_, err := aux.InsertOne(sc, bson.D{{Key: "_id", Value: id}, {Key: "by", Value: c.cid}})
+			if err != nil {
+				c.rywBad = fmt.Sprintf("abortInsert %s: insert inside the transaction failed: %v", c.cid, err)
+			}
+			return nil
+		})
+		if err := sess.AbortTransaction(ctx); err != nil {
+			c.rywBad = fmt.Sprintf("abortInsert %s: AbortTransaction failed: %v", c.cid, err)
+		}
+		if n, err := aux.CountDocuments(ctx, bson.D{{Key: "_id", Value: id}}); err != nil || n != 0 {
+			c.rywBad = fmt.Sprintf("abortInsert %s: %d documents with the aborted id are visible (%v)", c.cid, n, err)
+		}
+		_, err := aux.InsertOne(ctx, bson.D{{Key: "_id", Value: id}, {Key: "by", Value: c.cid}})
+		setErr(err)
+		if err != nil {
+			c.rywBad = fmt.Sprintf("abortInsert %s: inserting the id of the aborted insert afterwards failed: %v", c.cid, err)
+		} else {
+			c.modified = 1
+		}
+	case "transfer", "transferRj":
 		if c.k == c.k2 {
 			c.k2 = (c.k + 1) % 3
 		}
@@ -189,6 +217,15 @@ func c04Exec(env *hEnv, c *c04Call, sess lungo.ISession) {
 			}
 			if n, err := hot.CountDocuments(sc, bson.D{{Key: "log", Value: c.cid}}); err != nil || n != 2 {
 				c.rywBad = fmt.Sprintf("transfer %s: %d documents carry its mark inside its transaction (%v), want 2", c.cid, n, err)
+			}
+			if c.kind == "transferRj" {
+				// a call that fails inside the transaction (its projection is
+				// rejected after the write) takes nothing else with it
+				var d bson.D
+				rerr := hot.FindOneAndUpdate(sc, bson.D{{Key: "_id", Value: int32(c.k)}}, bson.D{{Key: "$inc", Value: bson.D{{Key: "n", Value: int64(1000)}}}}, options.FindOneAndUpdate().SetProjection(bson.D{{Key: "n", Value: 1}, {Key: "log", Value: 0}})).Decode(&d)
+				if rerr == nil {
+					c.rywBad = fmt.Sprintf("transfer %s: a find-and-modify with a mixed projection succeeded", c.cid)
+				}
 			}
 			return nil, nil
 		})
@@ -378,13 +415,13 @@ func c04Check(prog [][]*c04Call, env *hEnv, initial *lungo.Catalog, initLen int,
 	for _, c := range all {
 		wantEvents := 0
 		switch c.kind {
-		case "inc", "cas", "claim", "insert":
+		case "inc", "cas", "claim", "insert", "abortInsert":
 			if c.err == "" && c.modified > 0 {
 				wantEvents = 1
 			}
 		case "push":
 			wantEvents = int(c.modified)
-		case "transfer":
+		case "transfer", "transferRj":
 			if c.err == "" {
 				wantEvents = 2
 			}
@@ -538,7 +575,7 @@ func c04Check(prog [][]*c04Call, env *hEnv, initial *lungo.Catalog, initLen int,
 					return fmt.Errorf("lost update: %s reported success but its mark occurs %d times in the documents", c.cid, logged[c.cid])
 				}
 			}
-		case "transfer":
+		case "transfer", "transferRj":
 			if c.err == "" && logged[c.cid] != 2 {
 				return fmt.Errorf("lost update: transfer %s committed but its mark occurs %d times in the documents", c.cid, logged[c.cid])
 			}
@@ -552,7 +589,7 @@ func c04Check(prog [][]*c04Call, env *hEnv, initial *lungo.Catalog, initLen int,
 		for _, b := range order[i+1:] {
 			if a.inv < b.ret && b.inv < a.ret && a.actor != b.actor {
 				overlapWrites++
-				if a.kind == "transfer" || b.kind == "transfer" {
+				if a.kind == "transfer" || b.kind == "transfer" || a.kind == "transferRj" || b.kind == "transferRj" {
 					overlapTxn++
 				}
 			}
